@@ -10,7 +10,7 @@ abstract force field
     block = dict(name, nrexcl, syntax 'ff'|'itp', atoms=[atom], ixns=[ixn], dangling=[ixn])
     atom  = dict(atomname, atype, resname, resid (1-based inside the block), cgrp, charge, mass|None)
     ixn   = dict(sect, atoms=[0-based positions in the block], params=[str], meta={})
-    link  = dict(kind, resnames=[...], atoms=[(ref, replace-dict)], ixns=[dict(sect, atoms=[ref], params)])
+    link  = dict(kind, resnames=[...], atoms=[(ref, replace-dict, select-dict)], ixns=[dict(sect, atoms=[ref], params)])
     mod   = dict(name, atoms=[(atomname, replace-dict)], ixns=[dict(sect, atoms=[atomname], params)])
 abstract residue graph
     dict(nodes=[[key, resid, resname, from_itp|None]] (insertion order), edges=[[u, v]] (insertion order))
@@ -23,7 +23,8 @@ import json
 SECTIONS = {"bonds": 2, "angles": 3, "dihedrals": 4, "constraints": 2, "pairs": 2, "exclusions": 2,
             "impropers": 4}
 PROTEIN_NAMES = ["GLY", "ALA", "SER", "LYS", "TRP", "HIS"]
-POLYMER_NAMES = ["PEO", "PS", "P3HT", "N1", "PMA", "DEX"]
+# polymer residue names, some of them fragments of protein residue names (LA = lactic acid, ...)
+POLYMER_NAMES = ["PEO", "PS", "LA", "P3HT", "GL", "N1", "PMA", "LY", "DEX", "A"]
 ATOM_NAMES = ["BB", "SC1", "SC2", "SC3", "C1", "O1"]
 ATYPES = ["P1", "P2", "C1", "SN1a", "Q5", "TC3", "N4a"]
 CHARGES = [-1.0, -0.5, 0.0, 0.0, 0.25, 0.5, 1.0]
@@ -105,7 +106,7 @@ def gen_ff(rng, findings=(), protein=None, multires=None, syntax=None):
     # for which the missing modification must simply not matter
     no_termini = protein and rng.random() < 0.15
     if protein and (no_termini or rng.random() < 0.3):
-        pool = pool[:3] + POLYMER_NAMES[:3] if no_termini else pool + POLYMER_NAMES[:2]
+        pool = pool[:3] + rng.sample(POLYMER_NAMES, 3) if no_termini else pool[:4] + rng.sample(POLYMER_NAMES, 2)
     rng.shuffle(pool)
     blocks = []
     for name in pool[:rng.randint(1, 4)]:
@@ -155,14 +156,28 @@ def gen_ff(rng, findings=(), protein=None, multires=None, syntax=None):
     # a link that replaces an attribute of the atoms it names
     if rng.random() < 0.3:
         links.append(dict(kind="replace", resnames=[b["name"] for b in singles],
-                          atoms=[("BB", {"charge": rng.choice([0.75, -0.75])}), ("+BB", {})],
+                          atoms=[("BB", {"charge": rng.choice([0.75, -0.75])}, {}), ("+BB", {}, {})],
                           ixns=[dict(sect="constraints", atoms=["BB", "+BB"], params=_params(rng))]))
+    # a link that SELECTS its atom on an attribute (the charge the block gives it); a `replace` of that attribute
+    # by another link must not decide whether this one applies, whatever the order of the definitions
+    if rng.random() < 0.35:
+        probe = rng.choice(singles)["atoms"][0]["charge"]
+        links.append(dict(kind="select", resnames=[b["name"] for b in singles],
+                          atoms=[("BB", {}, {"charge": probe}), ("+BB", {}, {})],
+                          ixns=[dict(sect="exclusions", atoms=["BB", "+BB"], params=[])],
+                          edges=[("BB", "+BB")]))
+    # a one-residue link that renames an atom: modifications applied afterwards go by the NEW name
+    big = [b for b in singles if len(b["atoms"]) >= 2 and b["syntax"] == "ff"]
+    if big and rng.random() < 0.3:
+        block = rng.choice(big)
+        links.append(dict(kind="rename", resnames=[block["name"]],
+                          atoms=[(block["atoms"][1]["atomname"], {"atomname": "SX"}, {})], ixns=[]))
     # a link guarded by [ patterns ] that also replaces an attribute: where the pattern rejects it,
     # nothing of it may be seen (not its interactions, not its `replace`)
     if rng.random() < 0.3:
         probe = rng.choice(singles)["atoms"][0]["atype"]
         links.append(dict(kind="pattern", resnames=[b["name"] for b in singles],
-                          atoms=[("BB", {"mass": rng.choice([77.0, 78.5])}), ("+BB", {})],
+                          atoms=[("BB", {"mass": rng.choice([77.0, 78.5])}, {}), ("+BB", {}, {})],
                           ixns=[dict(sect="pairs", atoms=["BB", "+BB"], params=_params(rng, "pairs"))],
                           patterns=[["BB", "+BB " + json.dumps({"atype": probe})]],
                           # an explicit edge: a link whose only interactions are `pairs` gets no edge from the
@@ -185,7 +200,7 @@ def gen_ff(rng, findings=(), protein=None, multires=None, syntax=None):
         if big:
             block = rng.choice(big)
             links.append(dict(kind="remove", resnames=[block["name"]],
-                              atoms=[(block["atoms"][-1]["atomname"], {"atomname": None})], ixns=[],
+                              atoms=[(block["atoms"][-1]["atomname"], {"atomname": None}, {})], ixns=[],
                               non_edges=[(block["atoms"][-1]["atomname"], "+BB")]))
     # dangling interactions of .itp blocks (become links): last atom -- first atom of the next residue
     for block in singles:
@@ -261,8 +276,8 @@ def render_link(link):
     lines = ["[ link ]", 'resname "%s"' % "|".join(link["resnames"])]
     if link["atoms"]:
         lines.append("[ atoms ]")
-        for ref, replace in link["atoms"]:
-            lines.append("%s %s" % (ref, json.dumps({"replace": replace} if replace else {})))
+        for ref, replace, select in link["atoms"]:
+            lines.append("%s %s" % (ref, json.dumps(dict(select, **({"replace": replace} if replace else {})))))
     order = []
     for ixn in link["ixns"]:
         if ixn["sect"] not in order:
